@@ -30,9 +30,13 @@ func init() {
 			}
 			internal := map[*types.Func]bool{}
 			for _, n := range []string{"eval", "evalSExpr", "evalSExprCells", "funCall", "macroCall", "specialOpCall", "call"} {
+				// a funnel that was folded into another one is simply absent; eval and call are the core
 				f := c.LookupMethod("lisp.LEnv." + n)
 				if f == nil {
-					return []Obligation{anchorMissing("ENTRY.begin-eval", "LEnv."+n)}
+					if n == "eval" || n == "call" {
+						return []Obligation{anchorMissing("ENTRY.begin-eval", "LEnv."+n)}
+					}
+					continue
 				}
 				internal[f] = true
 			}
